@@ -1,10 +1,22 @@
+// Harness for C08: runs /repo's declaration pipeline
+// (validation.PreprocessDeclarations), the computed style of a probe element
+// (tree.GetAllComputedStyles) and var() resolution (tree.VerifResolveVar) on
+// generated declaration blocks and custom-property graphs, and writes one
+// case per run as a Coq term of type Check.C08.case (input + what the
+// implementation returned).  Inputs that may kill the process (cyclic
+// custom properties) run in worker subprocesses.
 package main
 
 import (
+	"bufio"
+	"encoding/json"
+	"flag"
 	"fmt"
 	"io"
-	"github.com/benoitkugler/webrender/logger"
 	"os"
+	"path/filepath"
+	"strings"
+	"time"
 
 	"verifharness/vlib"
 
@@ -12,58 +24,481 @@ import (
 	pr "github.com/benoitkugler/webrender/css/properties"
 	"github.com/benoitkugler/webrender/css/validation"
 	"github.com/benoitkugler/webrender/html/tree"
+	"github.com/benoitkugler/webrender/logger"
 	"github.com/benoitkugler/webrender/utils"
 )
-
-func decls(css string) string {
-	ds := validation.PreprocessDeclarations("", pa.ParseBlocksContentsString(css))
-	s := ""
-	for _, d := range ds {
-		s += fmt.Sprintf("%s = %#v imp=%v sh=%v\n", d.Name, d.Value, d.Important, d.Shortand)
-	}
-	return s
-}
-
-func computed(block string, props []string) string {
-	html := "<style>html{--inh: 7px} p {" + block + "}</style><p></p>"
-	doc, err := tree.NewHTML(utils.InputString(html), "http://verif.test/", nil, "")
-	if err != nil {
-		return "ERR " + err.Error()
-	}
-	doc.UAStyleSheet = tree.TestUAStylesheet
-	sf := tree.GetAllComputedStyles(doc, nil, false, nil, nil, nil, nil, false, nil)
-	p := doc.Root.FirstChild.NextSibling.FirstChild
-	st := sf.Get((*utils.HTMLNode)(p), "")
-	s := ""
-	for _, name := range props {
-		k := pr.PropsFromNames[name]
-		s += fmt.Sprintf("%s=%#v; ", name, st.Get(k.Key()))
-	}
-	return s
-}
-
-func main() {
-	if vlib.IsWorker() {
-		vlib.WorkerMain(func(in string) string { return computed(in, []string{"color", "width", "margin-left", "font-family"}) })
-	}
-	for _, a := range os.Args[1:] {
-		fmt.Println("==", a)
-		fmt.Print(decls(a))
-	}
-}
 
 func init() {
 	logger.WarningLogger.SetOutput(io.Discard)
 	logger.ProgressLogger.SetOutput(io.Discard)
-	if len(os.Args) > 1 && os.Args[1] == "-pool" && !vlib.IsWorker() {
-		res := vlib.RunPool(os.Args[2:], 4, 10e9, 4000000)
-		for i, r := range res {
-			out := r.Out
-			if r.Status != "ok" {
-				out = vlib.FatalKind(r.Out)
-			}
-			fmt.Println("==", os.Args[2+i], "\n  ", r.Status, out)
-		}
-		os.Exit(0)
+}
+
+// the properties read on the probe element
+var probeProps = []string{
+	"margin-top", "margin-right", "margin-bottom", "margin-left",
+	"padding-top", "padding-right", "padding-bottom", "padding-left",
+	"border-top-style", "border-right-style", "border-bottom-style", "border-left-style",
+	"border-top-color", "border-right-color", "border-bottom-color", "border-left-color",
+	"visibility", "color",
+}
+
+// ---- worker side
+
+type wIn struct {
+	Kind   string // "computed" | "resolve" | "meta"
+	Parent string
+	Block  string
+	Value  string   // resolve: the value whose top-level tokens are resolved
+	Props  []string // meta: properties to read
+}
+
+type wOut struct {
+	Err    string
+	Probe  []string // computed: Coq values of the probe element
+	Parent []string // computed: Coq values of the parent (body)
+	Extra  []string // computed: CE entries of substituted tokens
+	Res    []string // resolve: one rv per top-level token
+	Toks   []string // resolve: the tokens
+	Envs   string   // resolve: the environment
+	Desc   []string
+	Meta   string // meta: canonical observable
+}
+
+func styleOf(parent, block string) (htmlS, pS pr.ElementStyle, err error) {
+	html := "<style>body{" + parent + "} p{" + block + "}</style><p></p>"
+	doc, err := tree.NewHTML(utils.InputString(html), "http://verif.test/", nil, "")
+	if err != nil {
+		return nil, nil, err
 	}
+	doc.UAStyleSheet = tree.TestUAStylesheet
+	sf := tree.GetAllComputedStyles(doc, nil, false, nil, nil, nil, nil, false, nil)
+	body := doc.Root.FirstChild.NextSibling
+	p := body.FirstChild
+	return sf.Get((*utils.HTMLNode)(body), ""), sf.Get((*utils.HTMLNode)(p), ""), nil
+}
+
+func variablesOf(blocks ...string) map[string]pr.RawTokens {
+	m := map[string]pr.RawTokens{}
+	for _, b := range blocks {
+		ds := validation.PreprocessDeclarations("", pa.ParseBlocksContentsString(b))
+		imp := map[string]bool{}
+		for _, d := range ds {
+			if d.Name.Var != "" {
+				if imp[d.Name.Var] && !d.Important {
+					continue
+				}
+				m[d.Name.Var] = d.Value.(pr.RawTokens)
+				imp[d.Name.Var] = d.Important
+			}
+		}
+	}
+	return m
+}
+
+func handle(in string) (out string) {
+	var wi wIn
+	var wo wOut
+	defer func() {
+		if r := recover(); r != nil {
+			if u, ok := r.(unprintable); ok {
+				wo = wOut{Err: "unprintable: " + u.why}
+			} else {
+				wo = wOut{Err: fmt.Sprintf("panic: %v", r)}
+			}
+			b, _ := json.Marshal(wo)
+			out = string(b)
+		}
+	}()
+	json.Unmarshal([]byte(in), &wi)
+	switch wi.Kind {
+	case "computed":
+		hs, ps, err := styleOf(wi.Parent, wi.Block)
+		if err != nil {
+			wo.Err = err.Error()
+			break
+		}
+		for _, name := range wi.Props {
+			k := pr.PropsFromNames[name].Key()
+			v := ps.Get(k)
+			wo.Probe = append(wo.Probe, coqValue(v))
+			wo.Parent = append(wo.Parent, coqValue(hs.Get(k)))
+			wo.Desc = append(wo.Desc, fmt.Sprintf("%s=%v", name, v))
+		}
+		// colours of tokens built by substitution inside functions
+		vars := variablesOf(wi.Parent, wi.Block)
+		o := newOracle()
+		for _, c := range pa.ParseBlocksContentsString(wi.Block) {
+			if d, ok := c.(pa.Declaration); ok {
+				for _, t := range d.Value {
+					res, _ := tree.VerifResolveVar(vars, t)
+					o.addToks(res)
+				}
+			}
+		}
+		wo.Extra = o.l
+	case "resolve":
+		vars := variablesOf(wi.Block)
+		var envs []string
+		for _, k := range sortedKeys(vars) {
+			envs = append(envs, "EE "+str(k)+" "+coqToks(vars[k]))
+		}
+		wo.Envs = vlib.List(envs)
+		cs := pa.ParseBlocksContentsString("x:" + wi.Value)
+		for _, c := range cs {
+			d, ok := c.(pa.Declaration)
+			if !ok {
+				continue
+			}
+			for i, t := range pa.RemoveWhitespace(d.Value) {
+				if i >= 3 {
+					break
+				}
+				res, cyclic := tree.VerifResolveVar(vars, t)
+				wo.Toks = append(wo.Toks, coqTok(t))
+				switch {
+				case cyclic:
+					wo.Res = append(wo.Res, "RCyclic")
+					wo.Desc = append(wo.Desc, "cyclic")
+				case res == nil:
+					wo.Res = append(wo.Res, "RNil")
+					wo.Desc = append(wo.Desc, "nil")
+				default:
+					wo.Res = append(wo.Res, "(RToks "+coqToks(res)+")")
+					wo.Desc = append(wo.Desc, "["+pa.Serialize(res)+"]")
+				}
+			}
+		}
+	case "meta":
+		wo.Meta = metaObserve(wi)
+	}
+	b, _ := json.Marshal(wo)
+	return string(b)
+}
+
+// ---- parent side
+
+// the probe properties of a computed case: the families the block mentions
+// (at most three) and the sentinel declarations of the parent for them
+var families = []struct {
+	key      string
+	props    []string
+	sentinel string
+}{
+	{"margin", probeProps[0:4], "margin: 11px 12px 13px 14px; "},
+	{"padding", probeProps[4:8], "padding: 21px 22px 23px 24px; "},
+	{"border", probeProps[8:16], "border-style: dotted dashed double groove; border-color: #f00 #0f0 #00f #ff0; "},
+	{"visibility", probeProps[16:17], "visibility: hidden; "},
+	{"color", probeProps[17:18], "color: #f0f; "},
+}
+
+func probeFor(r *vlib.Rng, block string) (props []string, parent string) {
+	lb := strings.ToLower(block)
+	var idx []int
+	for i, f := range families {
+		if strings.Contains(lb, f.key) {
+			idx = append(idx, i)
+		}
+	}
+	for len(idx) > 3 {
+		k := r.Intn(len(idx))
+		idx = append(idx[:k], idx[k+1:]...)
+	}
+	if len(idx) == 0 {
+		idx = []int{r.Intn(len(families))}
+	}
+	for _, i := range idx {
+		props = append(props, families[i].props...)
+		parent += families[i].sentinel
+	}
+	return props, parent
+}
+
+type pending struct {
+	kind  string
+	in    wIn
+	build func(wo wOut, status int, fatal string) []vlib.Case
+}
+
+func statusCode(r vlib.WResult) (int, string) {
+	switch r.Status {
+	case "ok":
+		return 0, ""
+	case "fatal":
+		return 1, vlib.FatalKind(r.Out)
+	default:
+		return 2, "hang"
+	}
+}
+
+func tables(probeProps []string, parentVals []string) string {
+	l := make([]string, len(probeProps))
+	for i, name := range probeProps {
+		p := pr.PropsFromNames[name]
+		par := "VInitial"
+		if parentVals != nil {
+			par = parentVals[i]
+		}
+		l[i] = fmt.Sprintf("PE %s %s %s %s", str(name), vlib.Bool(pr.Inherited.Has(p)), coqValue(pr.InitialValues[p]), par)
+	}
+	return vlib.List(l)
+}
+
+func safe(f func()) (ok bool) {
+	defer func() {
+		if r := recover(); r != nil {
+			if _, is := r.(unprintable); is {
+				ok = false
+				return
+			}
+			panic(r)
+		}
+	}()
+	f()
+	return true
+}
+
+func declsCase(block string, tags []string) (c vlib.Case, ok bool) {
+	ok = safe(func() {
+		cs := pa.ParseBlocksContentsString(block)
+		ds := validation.PreprocessDeclarations("", cs)
+		o := newOracle()
+		o.addCompounds(cs)
+		c = vlib.Case{Kind: "decls",
+			Coq:        fmt.Sprintf("CDecls %s %s %s", coqRaws(cs), o.coq(), coqDecls(ds)),
+			Desc:       map[string]interface{}{"block": block, "impl": descDecls(ds)},
+			Tags:       tags,
+			Nontrivial: len(cs) > 1 || len(ds) > 0}
+	})
+	return c, ok
+}
+
+func hasTag(s string, subs ...string) bool {
+	for _, x := range subs {
+		if strings.Contains(s, x) {
+			return true
+		}
+	}
+	return false
+}
+
+func blockTags(block string) []string {
+	var t []string
+	lb := strings.ToLower(block)
+	if strings.Contains(lb, "var(") {
+		t = append(t, "var")
+	}
+	if strings.Contains(lb, "important") {
+		t = append(t, "important")
+	}
+	if strings.Contains(block, "/*") {
+		t = append(t, "comment")
+	}
+	if block != lb {
+		t = append(t, "uppercase")
+	}
+	if hasTag(lb, "inherit", "initial") {
+		t = append(t, "default-keyword")
+	}
+	if hasTag(lb, "border:", "border-top:", "border-left:", "border-right:", "border-bottom:") {
+		t = append(t, "border-shorthand")
+	}
+	if hasTag(lb, "margin:", "padding:", "bleed:", "border-width:", "border-style:", "border-color:") {
+		t = append(t, "four-sides")
+	}
+	return t
+}
+
+func main() {
+	if vlib.IsWorker() {
+		vlib.WorkerMain(handle)
+	}
+	out := flag.String("out", "cases.jsonl", "output file")
+	n := flag.Int("n", 2000, "number of cases")
+	corpusDir := flag.String("corpus", "../corpus/C08", "regression corpus directory")
+	flag.Parse()
+	rng := vlib.NewRng(vlib.Seed())
+	w := vlib.NewWriter(*out)
+	defer w.Close()
+
+	var cases []vlib.Case // direct cases, in order
+	var pend []pending
+
+	addComputed := func(r *vlib.Rng, parentCustom, block string, tags []string) {
+		probeProps, sentinel := probeFor(r, block)
+		parent := sentinel + parentCustom
+		cs := pa.ParseBlocksContentsString(block)
+		pcs := pa.ParseBlocksContentsString(parent)
+		pend = append(pend, pending{kind: "computed", in: wIn{Kind: "computed", Parent: parent, Block: block, Props: probeProps},
+			build: func(wo wOut, status int, fatal string) []vlib.Case {
+				var c vlib.Case
+				ok := safe(func() {
+					o := newOracle()
+					o.addCompounds(cs)
+					o.addCompounds(pcs)
+					for _, e := range wo.Extra {
+						if !o.seen[e] {
+							o.seen[e] = true
+							o.l = append(o.l, e)
+						}
+					}
+					outs := make([]string, len(wo.Probe))
+					for i := range wo.Probe {
+						outs[i] = "OE " + str(probeProps[i]) + " " + wo.Probe[i]
+					}
+					c = vlib.Case{Kind: "computed",
+						Coq: fmt.Sprintf("CComputed %s %s %s %s %d %s", coqRaws(pcs), coqRaws(cs), o.coq(), tables(probeProps, wo.Parent), status, vlib.List(outs)),
+						Desc: map[string]interface{}{"html": "<style>body{" + parent + "} p{" + block + "}</style><p></p>",
+							"computed_style_of_p": wo.Desc, "status": []string{"ok", "fatal", "hang"}[status], "fatal": fatal},
+						Tags: append(tags, "status-"+[]string{"ok", "fatal", "hang"}[status]), Nontrivial: true}
+				})
+				if !ok || wo.Err != "" {
+					return nil
+				}
+				return []vlib.Case{c}
+			}})
+	}
+	addResolve := func(block, value string, tags []string) {
+		pend = append(pend, pending{kind: "resolve", in: wIn{Kind: "resolve", Block: block, Value: value},
+			build: func(wo wOut, status int, fatal string) []vlib.Case {
+				if wo.Err != "" {
+					return nil
+				}
+				if status != 0 {
+					// the worker died: one case carrying the whole value's first token
+					var c vlib.Case
+					ok := safe(func() {
+						vars := map[string]pr.RawTokens{}
+						func() {
+							defer func() { recover() }()
+							vars = variablesOf(block)
+						}()
+						var envs []string
+						for _, k := range sortedKeys(vars) {
+							envs = append(envs, "EE "+str(k)+" "+coqToks(vars[k]))
+						}
+						toks := []pa.Token{}
+						for _, cc := range pa.ParseBlocksContentsString("x:" + value) {
+							if d, ok := cc.(pa.Declaration); ok {
+								toks = pa.RemoveWhitespace(d.Value)
+							}
+						}
+						if len(toks) == 0 {
+							return
+						}
+						c = vlib.Case{Kind: "resolve", Coq: fmt.Sprintf("CResolve %s %s %d RNil", vlib.List(envs), coqTok(toks[0]), status),
+							Desc: map[string]interface{}{"custom_properties": block, "value": value, "status": fatal},
+							Tags: append(tags, "status-fatal"), Nontrivial: true}
+					})
+					if !ok || c.Coq == "" {
+						return nil
+					}
+					return []vlib.Case{c}
+				}
+				var res []vlib.Case
+				for i := range wo.Res {
+					res = append(res, vlib.Case{Kind: "resolve",
+						Coq:  fmt.Sprintf("CResolve %s %s 0 %s", wo.Envs, wo.Toks[i], wo.Res[i]),
+						Desc: map[string]interface{}{"custom_properties": block, "value": value, "token_index": i, "impl": wo.Desc[i]},
+						Tags: append(append([]string{}, tags...), "res-"+strings.ToLower(strings.Fields(strings.Trim(wo.Res[i], "("))[0])), Nontrivial: true})
+				}
+				return res
+			}})
+	}
+
+	// ---- regression corpus first: one block per line: kind<TAB>parent<TAB>block[<TAB>value]
+	if files, _ := filepath.Glob(filepath.Join(*corpusDir, "*.tsv")); len(files) > 0 {
+		for _, f := range files {
+			fh, err := os.Open(f)
+			if err != nil {
+				continue
+			}
+			sc := bufio.NewScanner(fh)
+			for sc.Scan() {
+				line := sc.Text()
+				if line == "" || strings.HasPrefix(line, "#") {
+					continue
+				}
+				fs := strings.Split(line, "\t")
+				switch {
+				case fs[0] == "decls" && len(fs) >= 2:
+					if c, ok := declsCase(fs[1], append(blockTags(fs[1]), "corpus")); ok {
+						cases = append(cases, c)
+					}
+				case fs[0] == "computed" && len(fs) >= 3:
+					addComputed(rng.Fork(), fs[1], fs[2], append(blockTags(fs[2]), "corpus"))
+				case fs[0] == "resolve" && len(fs) >= 3:
+					addResolve(fs[1], fs[2], []string{"corpus"})
+				}
+			}
+			fh.Close()
+		}
+	}
+
+	// ---- generated streams
+	nMeta := *n / 2
+	nModel := *n - nMeta
+	target := nModel - len(cases) - len(pend)
+	for i := 0; i < target; i++ {
+		g := &G{r: rng.Fork()}
+		switch k := g.r.Intn(100); {
+		case k < 40:
+			var extra, names []string
+			if g.r.Chance(1, 4) {
+				extra, names = g.graph()
+			}
+			block := g.block(false, names, extra, 6)
+			if c, ok := declsCase(block, blockTags(block)); ok {
+				cases = append(cases, c)
+			}
+		case k < 62:
+			gdecls, names := g.graph()
+			var pextra []string
+			if g.r.Chance(1, 3) { // some of the graph lives on the parent (inherited custom properties)
+				cut := g.r.Intn(len(gdecls) + 1)
+				pextra, gdecls = gdecls[:cut], gdecls[cut:]
+			}
+			uses := []string{g.varUse(names)}
+			if g.r.Bool() {
+				uses = append(uses, g.varUse(names))
+			}
+			block := g.block(true, names, append(gdecls, uses...), 3)
+			parent := "--inh: 7px; --pc: blue; " + strings.Join(pextra, "; ")
+			addComputed(g.r, parent, block, blockTags(block))
+		default:
+			gdecls, names := g.graph()
+			value := g.varRef(names, 2)
+			if g.r.Chance(1, 5) {
+				value = g.weirdVar()
+			}
+			if g.r.Chance(1, 3) {
+				value += " " + g.varRef(names, 1)
+			}
+			addResolve(strings.Join(gdecls, "; "), value, nil)
+		}
+	}
+
+	nm := metaCases(rng, nMeta, func(in wIn, build func(wo wOut, status int, fatal string) []vlib.Case) {
+		pend = append(pend, pending{kind: "meta", in: in, build: build})
+	})
+	_ = nm
+
+	// run the worker inputs
+	inputs := make([]string, len(pend))
+	for i, p := range pend {
+		b, _ := json.Marshal(p.in)
+		inputs[i] = string(b)
+	}
+	results := vlib.RunPool(inputs, 8, 10*time.Second, 4000000)
+	for i, p := range pend {
+		var wo wOut
+		status, fatal := statusCode(results[i])
+		if status == 0 {
+			json.Unmarshal([]byte(results[i].Out), &wo)
+		}
+		cases = append(cases, p.build(wo, status, fatal)...)
+	}
+	for _, c := range cases {
+		w.Add(c)
+	}
+	fmt.Fprintf(os.Stderr, "c08: %d cases (%d worker runs)\n", w.N(), len(pend))
 }
